@@ -24,9 +24,13 @@ def make_obs(ctx):
                       bounds={'time': 'every h:m:s', 'N': '%d s' % n, 'direction/next': 'all 4'},
                       remove_bodies=P(['ymd'])))
     tb = 36 if ctx.tier == 'thorough' else 32
+    # odd multiples of 675 s did not finish inside 600 s at 36 bits (64-bit division by a non-power-of-two
+    # times 675): they are run at 32 bits
+    slow = (675, 1350, 2700, 5400, 10800, 21600, 43200)
     for n in (divs if ctx.tier == 'thorough' else [1, 60, 900, 3600, 86400]):
-        obs.append(Ob('sxround:%d' % n, H, 'h_sxround', {'NSEC': n, 'TBITS': tb}, units=UNITS, group='sxround', timeout=600,
-                      bounds={'epoch': '|t| < 2^%d (negative epochs included)' % tb, 'N': '%d s' % n, 'direction/next': 'all 4'},
+        obs.append(Ob('sxround:%d' % n, H, 'h_sxround', {'NSEC': n, 'TBITS': 32 if n in slow else tb}, units=UNITS, group='sxround',
+                      timeout=600 if ctx.tier == 'quick' else 1800,
+                      bounds={'epoch': '|t| < 2^%d (negative epochs included)' % (32 if n in slow else tb), 'N': '%d s' % n, 'direction/next': 'all 4'},
                       remove_bodies=P(['ymd'])))
     wins = core.year_windows(ctx.tier, ctx.seed, step=10, quick=[(1999, 2000), (1900, 1900), (2100, 2100)])
     if ctx.tier == 'quick':
@@ -38,9 +42,14 @@ def make_obs(ctx):
                       remove_bodies=P(['ymd'])))
         obs.append(Ob('dround-mon:%d-%d' % (lo, hi), H, 'h_dround_mon', d, units=UNITS, group='dround-mon', bounds=b,
                       remove_bodies=P(['ymd'])))
-        for rp in ('ymd', 'ywd', 'daisy'):
-            obs.append(Ob('dround-wday:%s:%d-%d' % (rp, lo, hi), H, 'h_dround_wday', dict(d, REP=REPS[rp]), units=UNITS,
-                          group='dround-wday:' + rp, bounds=b, remove_bodies=P([rp, 'daisy'])))
+        # weekday rounding goes through day numbers: dates from 4094 on fall under the day-number cut-off
+        # (C01's listed finding daisy_tail) and are outside here
+        if lo <= 4093:
+            whi = min(hi, 4093)
+            for rp in ('ymd', 'ywd', 'daisy'):
+                obs.append(Ob('dround-wday:%s:%d-%d' % (rp, lo, whi), H, 'h_dround_wday', dict(d, YHI=whi, REP=REPS[rp]), units=UNITS,
+                              group='dround-wday:' + rp, bounds=dict(b, dates='every day of %d..%d' % (lo, whi)),
+                              remove_bodies=P([rp, 'daisy'])))
         for u in ('h', 'm', 's'):
             obs.append(Ob('idem:%s:%d-%d' % (u, lo, hi), H, 'h_idem', dict(d, UNIT=DUR[u]), units=UNITS, unwind=4,
                           group='idem', bounds=dict(b, time='every h:m:s'), remove_bodies=P(['ymd'])))
@@ -53,5 +62,6 @@ def run(tier, seed):
         level_note=('bounded model checking of the static rounding functions of src/dround.c; the reference is the '
                     'relation "field equals target, finer fields kept, on the requested side, no nearer candidate"'),
         assumptions=['reference calendar h/ref.h', 'targets given as parsed durations (dt_io_strpdtrnd text parsing not covered)',
-                     'business-day and ISO-week targets not yet covered'],
+                     'business-day and ISO-week targets not yet covered',
+                     'weekday rounding of dates from 4094 on is outside (day-number cut-off, see C01 daisy_tail)'],
         stubs=[])
